@@ -103,6 +103,22 @@ pub fn goml(sb: &Sandbox, spec: &ProcSpec, args: Vec<String>) -> ProcResult<CliO
     run_process(&sb.root, spec, None, move || cli::entry(&args))
 }
 
+/// `goml run main.gom` invoked from inside the project directory (the entry file named without
+/// any directory part). File-system calls on relative paths are outside the sandbox prefix, so
+/// this run sees the real directory order and no injected faults; entropy is still simulated.
+pub fn run_main_bare(sb: &Sandbox, spec: &ProcSpec) -> RunSummary {
+    let mut spec = spec.clone();
+    spec.cwd = Some(sb.root.clone());
+    spec.plan.clear();
+    spec.crash_at = None;
+    let mut r = goml(sb, &spec, vec![s("goml"), s("run"), s("main.gom")]);
+    let (mut sum, _) = summarise_run(sb, &r);
+    if let Some(CliOut::Compiled(c)) = r.value.take() {
+        sum.go_text = c.go_text.clone();
+    }
+    sum
+}
+
 pub const ALL_DUMPS: [&str; 8] = [
     "--dump-ast",
     "--dump-hir",
